@@ -298,6 +298,13 @@ func propC02(c c02Case) *Outcome {
 	o.Observed = obs
 	dev := statusDeviation(s, e, obs)
 	if dev == "" {
+		// now and then ask the standard transport whether the model is right about it, too
+		if sampleForReference(s) {
+			o.class("model-also-validated-on-grpc-go")
+			if rdev := statusDeviation(s, e, runScript(s, cGRPC, carrierOpts{})); rdev != "" {
+				o.Inconclusive = "model disagrees with reference transport although the SUT agrees with the model: " + rdev
+			}
+		}
 		return o
 	}
 	if sig := c02Known(&c, e, obs, dev); sig != "" {
@@ -305,6 +312,9 @@ func propC02(c c02Case) *Outcome {
 		return o
 	}
 	// is the model right? ask the standard transport.
+	if !referenceUsable(s) {
+		return o.failf("%s/%s: %s", c.Carrier, s.Kind, dev)
+	}
 	ref := runScript(s, cGRPC, carrierOpts{})
 	if rdev := statusDeviation(s, e, ref); rdev != "" {
 		o.Inconclusive = fmt.Sprintf("model disagrees with reference transport (%s); SUT deviation was: %s", rdev, dev)
